@@ -241,6 +241,11 @@ func (c14) Eval(c *Case) (*Violation, bool) {
 			if op.Op != "readfile" && op.Op != "open" && op.Op != "read" {
 				continue
 			}
+			if _, isInput := files[op.Path]; !isInput {
+				// only reads of the input files: opening a directory to fsync it
+				// best-effort, or a temp file, is not "an included file"
+				continue
+			}
 			for _, k := range readKinds {
 				if op.Op == "read" && k != "eio" {
 					continue
